@@ -312,6 +312,10 @@ var topRules = []topRule{
 	{name: "spawn-function-value-parameter", good: "fn f() { println(1); }\nfn run() { spawn f(); }\nfn main() { run(); }\n", bad: "fn run(cb: fn() -> null) { spawn cb(); }\nfn main() { run(fn() { println(1); }); }\n"},
 	{name: "spawn-builtin", good: "fn show() { println(\"x\"); }\nfn main() { spawn show(); }\n", bad: "fn main() { spawn println(\"x\"); }\n"},
 	{name: "spawn-imported-function", lib: "pub fn f() { println(1); }\nfn main() {}\n", good: "import f from lib;\nfn main() { spawn f(); }\n", bad: "import f from lib;\nfn main() { let g = f; spawn g(); }\n"},
+	// parentheses are transparent for the implicit-any rule: where a value of type any is acceptable, so is the same
+	// expression in parentheses - and nowhere else
+	{name: "parenthesised-any-in-annotated-let", good: "fn main() { let o = new { ? }; o.set(\"k\", 5); let v: int = (o[\"k\"]); let w: int = ((o[\"k\"])); println(v, w); }\n", bad: "fn main() { let o = new { ? }; o.set(\"k\", 5); let v = (o[\"k\"]); println(1); }\n"},
+	{name: "parenthesised-any-cast-operand", good: "fn main() { let c = (\"7\".parse_json()) as int; let d = ((\"8\".parse_json())) as int; println(c, d); }\n", bad: "fn main() { println((\"7\".parse_json())); }\n"},
 	{name: "duplicate-parameter-singleton-and-normal", good: "$S = { n: int };\nfn f(a: $S, b: int) -> int { a.n + b }\nfn main() { println(f(1)); }\n", bad: "$S = { n: int };\nfn f(a: $S, a: int) -> int { a.n }\nfn main() { println(f(1)); }\n"},
 	{name: "duplicate-parameter-two-singletons", good: "$S = { n: int };\n$T = { m: int };\nfn f(a: $S, b: $T) -> int { a.n + b.m }\nfn main() { println(f()); }\n", bad: "$S = { n: int };\n$T = { m: int };\nfn f(a: $S, a: $T) -> int { a.n }\nfn main() { println(f()); }\n"},
 	{name: "duplicate-parameter", good: "fn f(a: int, b: int) -> int { a + b }\nfn main() { println(f(1, 2)); }\n", bad: "fn f(a: int, a: int) -> int { a }\nfn main() { println(f(1, 2)); }\n"},
